@@ -15,17 +15,21 @@ def finAll (g : Gen) : String :=
 
 /-- specification-side state of a history: payload since the last reset and the declared size -/
 structure SpecGen where
-  payload : List UInt8 := []
+  payload : Array UInt8 := #[]
   fixed : Option Nat := none
   /-- `false` once the history used something the executable spec does not cover (huge zero prefix) -/
   ok : Bool := true
 
 def specFin (s : SpecGen) : String :=
-  let n := s.payload.length
+  let n := s.payload.size
   let all (f : Bool → Nat → String) : String :=
     s!"f={f true 32}|{f false 64}|{f false 32}|{f true 64} n={n} w={b2s (s.fixed.getD n < 4097)}"
   if s.fixed.isSome && s.fixed != some n then all fun _ _ => "ERR(FixedSizeMismatch)"
-  else all fun tr s2 => digestStr (Spec.digest s.payload tr s2)
+  else
+    let a := Spec.analyze s.payload.toList
+    all fun tr s2 => digestStr (Spec.digestOf a tr s2)
+
+def specLimit : Nat := 70000
 
 /-- payload token `<form>:<hex>` or `p<form>:<hexpattern>:<count>` -/
 def payloadOf (tok : List String) : Option (List UInt8) :=
@@ -37,7 +41,22 @@ def payloadOf (tok : List String) : Option (List UInt8) :=
     | _, _ => none
   | _ => none
 
-def specLimit : Nat := 70000
+/-- apply a payload token `<form>:<hex>` / `p<form>:<pattern>:<count>` -/
+def applyPayload (g : Gen) (sp : SpecGen) (out sout : List String) (parts : List String) :
+    Gen × SpecGen × List String × List String :=
+  let head := parts.headD ""
+  let form := if parts.length == 3 then head.drop 1 else head
+  if !(["u", "a", "i", "b", "A"].contains form.toString) then (g, sp, "bad-op" :: out, sout) else
+  match payloadOf parts with
+  | none => (g, sp, "bad-op" :: out, sout)
+  | some bs =>
+    let g' :=
+      if form == "u" || form == "a" then g.update bs
+      else if form == "i" then g.updateByIter bs
+      else bs.foldl Gen.updateByByte g   -- "b" (update_by_byte) and "A" (+= u8)
+    let sp' := if sp.payload.size + bs.length ≤ specLimit
+               then { sp with payload := sp.payload.append bs.toArray } else { sp with ok := false }
+    (g', sp', out, sout)
 
 def runGen (toks : List String) : String × String :=
   let step (acc : Gen × SpecGen × List String × List String) (tok : String) :
@@ -45,16 +64,16 @@ def runGen (toks : List String) : String × String :=
     let (g, sp, out, sout) := acc
     let parts := tok.splitOn ":"
     match parts with
-    | ["r"] => (g.reset, { sp with payload := [], fixed := none }, out, sout)
+    | ["r"] => (g.reset, { payload := #[], fixed := none, ok := true }, out, sout)
     | ["c"] => (g, sp, out, sout)
-    | ["f"] => (g, sp, out ++ [finAll g], sout ++ [if sp.ok then specFin sp else "*"])
+    | ["f"] => (g, sp, finAll g :: out, (if sp.ok then specFin sp else "* * *") :: sout)
     | ["z", n] =>
       match n.toNat? with
       | some n =>
         (Gen.withPrefixZeroes n,
-         if n ≤ specLimit then { payload := List.replicate n 0, fixed := none, ok := sp.ok }
+         if n ≤ specLimit then { payload := Array.replicate n 0, fixed := none, ok := true }
          else { sp with ok := false }, out, sout)
-      | none => (g, sp, out ++ ["bad-op"], sout)
+      | none => (g, sp, "bad-op" :: out, sout)
     | [s, n] =>
       if s == "s" || s == "S" then
         match n.toNat? with
@@ -65,36 +84,15 @@ def runGen (toks : List String) : String × String :=
             else "s=OK"
           let sp' := if so == "s=OK" then { sp with fixed := some n } else sp
           match g.setFixedInputSize n with
-          | .ok g' => (g', sp', out ++ ["s=OK"], sout ++ [so])
-          | .error e => (g, sp', out ++ [s!"s=ERR({genErrStr e})"], sout ++ [so])
-        | none => (g, sp, out ++ ["bad-op"], sout)
+          | .ok g' => (g', sp', "s=OK" :: out, so :: sout)
+          | .error e => (g, sp', s!"s=ERR({genErrStr e})" :: out, so :: sout)
+        | none => (g, sp, "bad-op" :: out, sout)
       else
-        match payloadOf parts with
-        | none => (g, sp, out ++ ["bad-op"], sout)
-        | some bs =>
-          let form := (parts.headD "").drop (if (parts.headD "").length > 1 then 1 else 0)
-          let g' :=
-            if form == "u" || form == "a" then g.update bs
-            else if form == "i" then g.updateByIter bs
-            else bs.foldl Gen.updateByByte g   -- "b" (update_by_byte) and "A" (+= u8)
-          let sp' := if sp.payload.length + bs.length ≤ specLimit
-                     then { sp with payload := sp.payload ++ bs } else { sp with ok := false }
-          (g', sp', out, sout)
-    | [_, _, _] =>
-      match payloadOf parts with
-      | none => (g, sp, out ++ ["bad-op"], sout)
-      | some bs =>
-        let form := (parts.headD "").drop 1
-        let g' :=
-          if form == "u" || form == "a" then g.update bs
-          else if form == "i" then g.updateByIter bs
-          else bs.foldl Gen.updateByByte g
-        let sp' := if sp.payload.length + bs.length ≤ specLimit
-                   then { sp with payload := sp.payload ++ bs } else { sp with ok := false }
-        (g', sp', out, sout)
-    | _ => (g, sp, out ++ ["bad-op"], sout)
+        applyPayload g sp out sout parts
+    | [_, _, _] => applyPayload g sp out sout parts
+    | _ => (g, sp, "bad-op" :: out, sout)
   let (_, _, out, sout) := toks.foldl step (Gen.new, {}, [], [])
-  (" ".intercalate out, " ".intercalate sout)
+  (" ".intercalate out.reverse, " ".intercalate sout.reverse)
 
 def runHb (args : List String) : String × String :=
   match args with
